@@ -1,5 +1,224 @@
-import HclModel
+import HclModel.Gohcl.Codec
+import HclModel.Expr.Codec
 open HclModel
 
-/-- `GOHCL <args>`: see the harness side (props/c16/corr.go) for the wire format -/
-def gohclLine (_args : String) : String := "unimplemented"
+/-!
+`GOHCL` — correspondence operations for the model of gohcl (`HclModel/Gohcl/Codec.lean`); the harness side is
+`harness/props/c16/corr.go`.
+
+Wire format (s-expressions, every string in hex, `-` = empty string; cty values `V` and cty types as in `EVAL`):
+
+* Go attribute type `T`:  `str` | `int` | `bool` | `(slice T)` | `(map T)` | `(ptr T)`
+* Go attribute value `G`: `(str <hex>)` | `(int <int>)` | `true` | `false`
+                          | `nilslice` | `(slice G…)` | `nilmap` | `(map (<hex key> G)…)` | `nilptr` | `(ptr G)`
+* struct type `S`:        `(struct F…)` with
+      `F` = `(attr <hex name> req|opt T)` | `(label <hex name>)` | `(block <hex type> one|ptr|slice|sliceptr S)`
+      (`opt` = the tag says `,optional`)
+* struct value `W`:       `(sv X…)`, one `X` per field:
+      `(attr G)` | `(label <hex>)` | `(one W)` | `(ptr nil)` | `(ptr W)` | `(slice nil)` | `(slice (W…))`
+      | `(sliceptr nil)` | `(sliceptr (W…))`
+* body `B`:               `(body ((<hex name> V)…) ((block <hex type> (<hex label>…) B)…))`
+
+Operations:
+
+* `GOHCL enc S W`    → `panic` | `B` (attribute values after `reparse`)
+* `GOHCL dec S B`    → `err` | `W` | `unsupported <what>` (a conversion outside the fragment of `convert`)
+* `GOHCL schema S`   → `(schema ((<hex name> req|opt)…) ((<hex type> <label count>)…))`
+* `GOHCL attr T G`   → `<ctyTy> | <toCty> | <reparse of it> | <decodeExpr of that>`, with `none` when `toCty`
+                        fails and `err` / `unsupported <what>` / `G` for the last component
+-/
+namespace OpGohcl
+open HclModel.Gohcl HclModel.Body
+
+/-! ### reading -/
+
+partial def gtyOfSexp : Sexp → Option GTy
+  | .atom "str" => some .str
+  | .atom "int" => some .int
+  | .atom "bool" => some .bool
+  | .list [.atom "slice", t] => GTy.slice <$> gtyOfSexp t
+  | .list [.atom "map", t] => GTy.map <$> gtyOfSexp t
+  | .list [.atom "ptr", t] => GTy.ptr <$> gtyOfSexp t
+  | _ => none
+
+partial def gvalOfSexp : Sexp → Option GVal
+  | .atom "true" => some (.bool true)
+  | .atom "false" => some (.bool false)
+  | .atom "nilslice" => some (.slice none)
+  | .atom "nilmap" => some (.map none)
+  | .atom "nilptr" => some (.ptr none)
+  | .list [.atom "str", .atom h] => GVal.str <$> hexString? h
+  | .list [.atom "int", n] => GVal.int <$> Sexp.int? n
+  | .list (.atom "slice" :: xs) => (fun vs => GVal.slice (some vs)) <$> xs.mapM gvalOfSexp
+  | .list (.atom "map" :: kvs) => (fun vs => GVal.map (some vs)) <$> kvs.mapM fun kv =>
+      match kv with
+      | .list [.atom k, v] => do pure (← hexString? k, ← gvalOfSexp v)
+      | _ => none
+  | .list [.atom "ptr", v] => (fun g => GVal.ptr (some g)) <$> gvalOfSexp v
+  | _ => none
+
+def shapeOfName : String → Option Shape
+  | "one" => some .one | "ptr" => some .ptr | "slice" => some .slice | "sliceptr" => some .slicePtr
+  | _ => none
+
+mutual
+partial def styOfSexp : Sexp → Option STy
+  | .list (.atom "struct" :: fs) => STy.mk <$> fs.mapM fieldOfSexp
+  | _ => none
+partial def fieldOfSexp : Sexp → Option Field
+  | .list [.atom "attr", .atom n, .atom o, t] => do
+    let opt ← (match o with | "opt" => some true | "req" => some false | _ => none)
+    pure (.attr (← hexString? n) opt (← gtyOfSexp t))
+  | .list [.atom "label", .atom n] => Field.label <$> hexString? n
+  | .list [.atom "block", .atom ty, .atom sh, s] => do
+    pure (.block (← hexString? ty) (← shapeOfName sh) (← styOfSexp s))
+  | _ => none
+end
+
+mutual
+partial def svalOfSexp : Sexp → Option SVal
+  | .list (.atom "sv" :: xs) => SVal.mk <$> xs.mapM fvalOfSexp
+  | _ => none
+partial def fvalOfSexp : Sexp → Option FVal
+  | .list [.atom "attr", g] => FVal.attr <$> gvalOfSexp g
+  | .list [.atom "label", .atom h] => FVal.label <$> hexString? h
+  | .list [.atom "one", w] => FVal.one <$> svalOfSexp w
+  | .list [.atom "ptr", .atom "nil"] => some (.ptr none)
+  | .list [.atom "ptr", w] => (fun s => FVal.ptr (some s)) <$> svalOfSexp w
+  | .list [.atom "slice", .atom "nil"] => some (.slice none)
+  | .list [.atom "slice", .list ws] => (fun xs => FVal.slice (some xs)) <$> ws.mapM svalOfSexp
+  | .list [.atom "sliceptr", .atom "nil"] => some (.slicePtr none)
+  | .list [.atom "sliceptr", .list ws] => (fun xs => FVal.slicePtr (some xs)) <$> ws.mapM svalOfSexp
+  | _ => none
+end
+
+mutual
+partial def gbodyOfSexp : Sexp → Option GBody
+  | .list [.atom "body", .list as, .list bs] => do
+    let as ← as.mapM fun a =>
+      match a with
+      | .list [.atom n, v] => do pure (← hexString? n, ← valOfSexp Fl.none v)
+      | _ => none
+    pure (.mk as (← bs.mapM gblockOfSexp))
+  | _ => none
+partial def gblockOfSexp : Sexp → Option GBlock
+  | .list [.atom "block", .atom ty, .list ls, b] => do
+    let ls ← ls.mapM fun l => match l with
+      | .atom h => hexString? h
+      | _ => none
+    pure (.mk (← hexString? ty) ls (← gbodyOfSexp b))
+  | _ => none
+end
+
+/-! ### writing -/
+
+partial def gvalDump : GVal → String
+  | .str s => s!"(str {stringHex s})"
+  | .int n => s!"(int {n})"
+  | .bool true => "true"
+  | .bool false => "false"
+  | .slice none => "nilslice"
+  | .slice (some xs) => "(slice" ++ String.join (xs.map fun x => " " ++ gvalDump x) ++ ")"
+  | .map none => "nilmap"
+  | .map (some kvs) => "(map" ++ String.join (kvs.map fun (k, x) => s!" ({stringHex k} {gvalDump x})") ++ ")"
+  | .ptr none => "nilptr"
+  | .ptr (some v) => s!"(ptr {gvalDump v})"
+
+def joinSp (xs : List String) : String := " ".intercalate xs
+
+mutual
+partial def svalDump : SVal → String
+  | .mk fs => "(sv" ++ String.join (fs.map fun f => " " ++ fvalDump f) ++ ")"
+partial def fvalDump : FVal → String
+  | .attr g => s!"(attr {gvalDump g})"
+  | .label s => s!"(label {stringHex s})"
+  | .one w => s!"(one {svalDump w})"
+  | .ptr none => "(ptr nil)"
+  | .ptr (some w) => s!"(ptr {svalDump w})"
+  | .slice none => "(slice nil)"
+  | .slice (some ws) => "(slice (" ++ joinSp (ws.map svalDump) ++ "))"
+  | .slicePtr none => "(sliceptr nil)"
+  | .slicePtr (some ws) => "(sliceptr (" ++ joinSp (ws.map svalDump) ++ "))"
+end
+
+mutual
+/-- attribute values as they are after the writer, the parser and the evaluation of literals -/
+partial def gbodyDump : GBody → String
+  | .mk as bs =>
+    "(body (" ++ joinSp (as.map fun (n, v) => s!"({stringHex n} {valDump (reparse v)})") ++ ") ("
+      ++ joinSp (bs.map gblockDump) ++ "))"
+partial def gblockDump : GBlock → String
+  | .mk ty ls b => s!"(block {stringHex ty} (" ++ joinSp (ls.map stringHex) ++ s!") {gbodyDump b})"
+end
+
+def schemaDump (s : Schema) : String :=
+  "(schema (" ++ joinSp (s.attrs.map fun a => s!"({stringHex a.name} {if a.required then "req" else "opt"})") ++ ") ("
+    ++ joinSp (s.blocks.map fun b => s!"({stringHex b.type} {b.labelCount})") ++ "))"
+
+/-! ### conversions outside the fragment of `convert` -/
+
+def convUnsupported (t : GTy) (v : Val) : Option String :=
+  match convert (reparse v) (ctyTy t) with
+  | .error (.unsupported w) => some w
+  | _ => none
+
+/-- some attribute of the body that a field of the type takes (at any depth) needs a conversion that the model
+    of `convert` leaves outside its fragment -/
+partial def bodyUnsupported : STy → GBody → Option String
+  | .mk fields, body =>
+    fields.firstM fun f =>
+      match f with
+      | .attr name _ t => (findAttr name body.attrs).bind (convUnsupported t)
+      | .label _ => none
+      | .block type _ sty =>
+        (body.blocks.filter (·.type == type)).firstM fun blk => bodyUnsupported sty blk.body
+
+def decFuel : Nat := 256
+
+end OpGohcl
+
+open OpGohcl HclModel.Gohcl in
+/-- `GOHCL <args>`: see the header of this file for the wire format -/
+def gohclLine (args : String) : String :=
+  match Sexp.parseMany args with
+  | some [.atom "enc", s, w] =>
+    (match styOfSexp s, svalOfSexp w with
+     | some ty, some v =>
+       (match encodeBody ty v with
+        | some b => gbodyDump b
+        | none => "panic")
+     | none, _ => "bad-input type"
+     | _, none => "bad-input value")
+  | some [.atom "dec", s, b] =>
+    (match styOfSexp s, gbodyOfSexp b with
+     | some ty, some body =>
+       (match bodyUnsupported ty body with
+        | some w => "unsupported " ++ w
+        | none =>
+          match decodeBody decFuel ty body with
+          | some v => svalDump v
+          | none => "err")
+     | none, _ => "bad-input type"
+     | _, none => "bad-input body")
+  | some [.atom "schema", s] =>
+    (match styOfSexp s with
+     | some ty => schemaDump (impliedSchema ty)
+     | none => "bad-input type")
+  | some [.atom "attr", t, g] =>
+    (match gtyOfSexp t, gvalOfSexp g with
+     | some ty, some v =>
+       (match toCty ty v with
+        | none => tyDump (ctyTy ty) ++ " | none | none | none"
+        | some c =>
+          let r := reparse c
+          let back :=
+            match convUnsupported ty r with
+            | some w => "unsupported " ++ w
+            | none =>
+              match decodeExpr ty r with
+              | some g' => gvalDump g'
+              | none => "err"
+          tyDump (ctyTy ty) ++ " | " ++ valDump c ++ " | " ++ valDump r ++ " | " ++ back)
+     | none, _ => "bad-input type"
+     | _, none => "bad-input value")
+  | _ => "bad-op"
